@@ -253,6 +253,7 @@ func (ex *Explorer) runPath(w *worker, it workItem) {
 	p.now = p.fresh("now0", 64)
 	// virtual epoch: 2^40 ns <= now0 <= 2^60 ns so that "ages" never overflow
 	p.addPC(And(Cmp(OSle, BV(64, 1<<40), p.now), Cmp(OSle, p.now, BV(64, 1<<60))))
+	p.ranges = map[string]ival{p.now.Name: {1 << 40, 1 << 60}}
 	main := p.newThread()
 	p.cur = main
 	reason := "done"
